@@ -8,6 +8,7 @@ import FM.Model.Quotes
 import FM.Model.Ellipses
 import FM.Model.Render
 import FM.Base.Sexp
+import FM.Model.BlockStart
 /-
   One operation per input line, one canonical answer per output line.
 -/
@@ -136,6 +137,9 @@ def step (line : String) : String :=
           encStr (renderDoc { wrap := wrap, spacing := spacing, defs := ds } bs)
         | _, _ => bad
       | _, _, _ => bad
+  | ["interrupts", ws] => match decList ws with
+      | some ws => encBool (interruptsPara ws)
+      | none => bad
   | _ => bad
 
 partial def loop (hin hout : IO.FS.Stream) : IO Unit := do
